@@ -38,6 +38,27 @@ func faultState(f string) string {
 // applyFault brings rc to the fault's state and then performs the fault; it
 // returns the virtual time at which the fault was complete.
 func applyFault(w *hz.World, rc *hz.RConn, f string, dwell time.Duration) (time.Duration, bool) {
+	if f == "collide" {
+		// while corebgp's own connection sits in OpenSent the remote completes an inbound
+		// handshake and closes the outbound connection at the instant it sends the
+		// KEEPALIVE that establishes the inbound one; later it drops that session too
+		if !rc.WaitMsgs(1, 10*time.Second) {
+			return 0, false
+		}
+		in := w.Connect(rc.PeerIP)
+		if !in.WaitMsgs(1, 10*time.Second) {
+			return 0, false
+		}
+		in.SendOpen(in.StdOpen(remoteAS, 90, remoteIDu))
+		if !in.WaitMsgs(2, 10*time.Second) {
+			return 0, false
+		}
+		in.SendKeepalive()
+		rc.Close()
+		time.Sleep(dwell + time.Millisecond)
+		in.Close()
+		return w.Now(), true
+	}
 	st := faultState(f)
 	if !rc.WaitMsgs(1, 10*time.Second) {
 		return 0, false
@@ -78,7 +99,7 @@ func c11World(t *testing.T, p c11Params) rt.Result {
 		if p.Passive {
 			mon := w.MustAddPeer(ps)
 			for i, f := range p.Faults {
-				if f == "refuse" || f == "stall" {
+				if f == "refuse" || f == "stall" || f == "collide" {
 					time.Sleep(idle) // nothing to do for a passive peer
 					continue
 				}
@@ -331,7 +352,7 @@ func c11InboundEnd(t *testing.T, how, next string, seed uint64, hook int) rt.Res
 func TestC11(t *testing.T) {
 	c := rt.Get()
 	var alpha []string
-	alpha = append(alpha, "refuse", "stall")
+	alpha = append(alpha, "refuse", "stall", "collide")
 	for _, k := range []string{"close", "reset", "cease"} {
 		for _, s := range allStates {
 			alpha = append(alpha, k+"@"+s)
